@@ -357,7 +357,7 @@ func c19(c *core.Ctx) {
 		"builder case = one of 24 Build* functions / sub-builders applied to a container holding 0..10 prior payloads with boundary argument sizes {0,1,2,255,256,257,65531,65535,65536,70000}: container grows by exactly one, built payload observes to the arguments, earlier payloads unchanged, "+
 		"then Encode: either an error or an encoding from which the independent strict parser recovers exactly the arguments (3GPP helpers: TS 24.502 layouts typed in the harness); distinct = (builder, outcome, structural shape)")
 	c.Info("assumptions", "5G_QOS_INFO flag bits DSCPI = bit 1, DCSI = bit 2 (TS 24.502 9.3.1.1 as recalled; part of the trusted base) || whether a builder copies its slice arguments is recorded, not judged")
-	c.Family("headers", c.N(2000, 200000), func(k *core.Case) {
+	c.Family("headers", c.N(8000, 200000), func(k *core.Case) {
 		ispi, rspi, ex, mid := k.R.U64(), k.R.U64(), k.R.Byte(), k.R.U32()
 		resp, init := k.Index%2 == 1, (k.Index/2)%2 == 1
 		k.Eval(1)
